@@ -74,3 +74,65 @@ def format_shape(t):
             return None
         args.append((c[1].split("new_")[-1], c[2][0]))
     return pieces, args
+
+
+def builder_shape(path, val):
+    """Shape of a text that is built in a `String` local: `let mut s = format!(A..); s.push_str(&format!(B..)); s.push_str("lit")`
+    — the pieces of A followed by those of every push_str on the path (argument indexes shifted), or None when the
+    value is not such a string or something else mutates it."""
+    from .prog import cname, op_place
+    fm = T.find(val, lambda x: T.is_call(x, r"^std::fmt::format$|^alloc::fmt::format$") and len(x) > 3 and isinstance(x[3], tuple))
+    base = format_shape(val)
+    if fm is None or base is None:
+        return None
+    body = path.body
+    site = fm[3][1]
+    if site not in path.blocks:
+        return None
+    start = path.blocks.index(site)
+    owners = {body.blocks[site]["term"]["dest"]["l"]}
+    pieces, args = list(base[0]), list(base[1])
+    for pos in range(start, len(path.blocks)):
+        blk = path.blocks[pos]
+        for s_ in body.blocks[blk]["stmts"]:
+            if s_["k"] == "assign" and not s_["lhs"]["p"] and s_["rv"]["k"] == "use":
+                q = op_place(s_["rv"]["op"])
+                if q is not None and not q["p"] and q["l"] in owners:
+                    owners.add(s_["lhs"]["l"])
+        t = body.blocks[blk]["term"]
+        if t["k"] != "call" or pos == len(path.blocks) - 1 or "indirect" in t["func"] or not t["args"]:
+            continue
+        a0 = op_place(t["args"][0])
+        if a0 is None:
+            continue
+        if cname(t["func"]).endswith("hint::must_use") and not a0["p"] and a0["l"] in owners:
+            owners.add(t["dest"]["l"])        # `format!` wraps its result in must_use(..)
+            continue
+        # is the receiver `&mut <owner>`?
+        d = path._find_def(a0["l"], pos, None)
+        mut_owner = False
+        if d is not None and d[0] == "s":
+            rv = body.blocks[path.blocks[d[1]]]["stmts"][d[2]]["rv"]
+            if rv["k"] == "ref" and rv.get("mut", True) and not [e for e in rv["place"]["p"] if e != "deref"] and rv["place"]["l"] in owners:
+                mut_owner = True
+        if not mut_owner:
+            continue
+        name = cname(t["func"])
+        if name.endswith("String::push_str") and len(t["args"]) == 2:
+            arg = path.arg(pos, 1)
+            sh = format_shape(arg)
+            if sh is not None:
+                off = len(args)
+                pieces += [(p_[0], p_[1] + off, p_[2]) if p_[0] == "arg" else p_ for p_ in sh[0]]
+                args += list(sh[1])
+                continue
+            cb = T.const_bytes(T.peel(arg))
+            if cb is not None:
+                pieces.append(("lit", cb))
+                continue
+            return None
+        if name.endswith("String::push") and len(t["args"]) == 2 and T.const_int(path.arg(pos, 1)) is not None and T.const_int(path.arg(pos, 1)) < 128:
+            pieces.append(("lit", bytes([T.const_int(path.arg(pos, 1))])))
+            continue
+        return None     # any other mutation of the string: not modelled
+    return pieces, args
